@@ -303,6 +303,25 @@ def r01_4(ctx):
         if 'kvs0' in src(e):
             ok = 'kvs0 + kvs1' in src(e) or 'kvs0' in src(e) and 'kvs1' not in src(e) and 'kvs1 = kvs0' in src(ctx.prog.functions[q].node) if q in ctx.prog.functions else True
             ctx.decide('R01.4', q, 'degrees of all spaces considered: ' + src(e), bool(ok) or None, node)
+    # the template's {kvs} placeholder is filled with ALL used spaces (the test space may have the higher degree)
+    gi = ctx.prog.func(CG + '.AsmGenerator.generate_init')
+    fills = [c for c in ast.walk(gi.node) if isinstance(c, ast.Call) and src(c.func) in ('self.putf', 'self.put') and c.args
+             and isinstance(c.args[0], ast.Constant) and isinstance(c.args[0].value, str) and c.args[0].value.strip().startswith('self.nqp =')]
+    if not fills:
+        ctx.undecided('R01.4', gi.qual, 'nqp template covers all used spaces', gi.node, 'emission of self.nqp not found')
+    for c in fills:
+        kv = kwarg(c, 'kvs')
+        if kv is None:
+            ctx.undecided('R01.4', gi.qual, 'nqp template covers all used spaces', c, 'no kvs= argument')
+            continue
+        names = {n.id for n in ast.walk(kv) if isinstance(n, ast.Name)}
+        joined = isinstance(kv, ast.Call) and isinstance(kv.func, ast.Attribute) and kv.func.attr == 'join' and 'used_kvs' in names \
+            and isinstance(kv.func.value, ast.Constant) and '+' in str(kv.func.value.value)
+        single = any(isinstance(s, ast.Subscript) and src(s.value) == 'used_kvs' for s in ast.walk(kv)) or (isinstance(kv, ast.Constant))
+        ctx.decide('R01.4', gi.qual, 'nqp template covers all used spaces: kvs=%s' % src(kv), True if joined else (False if single else None), c,
+                   'the maximum degree is taken over the knot vectors of every used space' if joined else
+                   'only one space enters the maximum degree (`%s`): for a form whose other space has the higher degree the rule has too few nodes '
+                   'and the matrix is under-integrated' % src(kv), definite=True)
     gr = ctx.prog.func('pyiga.quadrature.gauss_rule')
     t = src(gr.node).replace(' ', '')
     ok = 'm=0.5*(a+b)' in t and 'h=0.5*(b-a)' in t and 'nodes=np.outer(h,x)+m[:,np.newaxis]' in t and 'weights=np.outer(h,w)' in t and 'np.polynomial.legendre.leggauss(deg)' in t
